@@ -159,6 +159,73 @@ pub fn judge_read(res: &Ev, exp: &Expect, k: &str) -> Result<(), (String, String
   }
 }
 
+pub const SRC_FORMS3: [&str; 6] = ["mut", "copy", "field", "tuple", "litdef", "chain"];
+
+/// makes the API-bound matrix `x` reachable through another source form; returns the text that denotes it
+pub fn source_form3(s: &mut Sess, x: &CVal, form: &str) -> Option<String> {
+  let (r, c) = x.shape();
+  match form {
+    "mut" => { s.bind("xm", x, true); Some("xm".into()) }
+    "copy" => { if !s.eval("xc := x").is_ok() { return None; } Some("xc".into()) }
+    "field" => { if !s.eval("xr := {f: x, g: 1}").is_ok() { return None; } Some("xr.f".into()) }
+    "tuple" => { if !s.eval("xt := (true, x)").is_ok() { return None; } Some("xt.2".into()) }
+    "litdef" => { let l = lit(x)?; if !s.eval(&format!("xl := {}", l)).is_ok() { return None; } Some("xl".into()) }
+    "chain" => Some(format!("x[1..={},1..={}]", r, c)),
+    _ => None,
+  }
+}
+
+fn run_ctx(case: &Case) -> Outcome {
+  let k = case.input["kind"].as_str().unwrap().to_string();
+  let x: CVal = serde_json::from_value(case.input["x"].clone()).unwrap();
+  let (r, c) = x.shape();
+  let ctx = case.input["ctx"].as_str().unwrap();
+  let pat = case.input["pat"].as_str().unwrap();
+  let (i0, j0) = (case.input["i0"].as_u64().unwrap() as usize, case.input["j0"].as_u64().unwrap() as usize);
+  // decoys: other valid positions (a wrong lookup yields another element, not an error)
+  let (di, dj) = (i0 % r + 1, j0 % c + 1);
+  // body with local names i, j  |  the same body with the bound values written as literals  |  selectors for the reference
+  let (body, lit_body, sels): (String, String, Vec<Sel>) = match pat {
+    "ij" => ("x[i,j]".into(), format!("x[{},{}]", i0, j0), vec![Sel::S(i0), Sel::S(j0)]),
+    "Lj" => (format!("x[{},j]", di), format!("x[{},{}]", di, j0), vec![Sel::S(di), Sel::S(j0)]),
+    "iL" => (format!("x[i,{}]", dj), format!("x[{},{}]", i0, dj), vec![Sel::S(i0), Sel::S(dj)]),
+    "aj" => ("x[:,j]".into(), format!("x[:,{}]", j0), vec![Sel::All, Sel::S(j0)]),
+    "ia" => ("x[i,:]".into(), format!("x[{},:]", i0), vec![Sel::S(i0), Sel::All]),
+    "rj" => (format!("x[1..={},j]", r.min(2)), format!("x[1..={},{}]", r.min(2), j0), vec![Sel::R(1, r.min(2), true), Sel::S(j0)]),
+    "ir" => (format!("x[i,1..={}]", c.min(2)), format!("x[{},1..={}]", i0, c.min(2)), vec![Sel::S(i0), Sel::R(1, c.min(2), true)]),
+    _ => ("x[j]".into(), format!("x[{}]", (j0 - 1) * r + i0), vec![Sel::S((j0 - 1) * r + i0)]),
+  };
+  let scalar_result = sels.iter().all(|s| s.is_scalar());
+  // the linear form binds j to the linear position
+  let jbind = if pat == "lin" { (j0 - 1) * r + i0 } else { j0 };
+  let exp = ref_select(&x, &sels).expect("in range");
+  let wrap = |b: &str| -> Option<String> {
+    match ctx {
+      // one generator variable: both names denote it, so the diagonal element is addressed (needs i0 = j0 within both extents)
+      "compr" => if !scalar_result { None } else if pat == "ij" { None } else if pat == "iL" { Some(format!("[{} | i <- [{}]]", b, i0)) } else { Some(format!("[{} | j <- [{}]]", b, jbind)) },
+      "match" => Some(format!("res := ({}, {})?\n  | (i, j) => {}\n  | * => x[1].", i0, jbind, b)),
+      // (a function arm does not see globals inside a subscripted name: the matrix is passed as a parameter named x)
+      _ => Some(format!("pick(x<[{k}]>, i<f64>, j<f64>) => <{o}>\n  | (x, i, j) => {b}.\n\npick(x, {i}, {j})", k = k, o = if scalar_result { k.clone() } else { format!("[{}]", k) }, b = b, i = i0, j = jbind)),
+    }
+  };
+  let (Some(text), Some(probe)) = (wrap(&body), wrap(&lit_body)) else { return Outcome::trivial().tag("ctx-not-applicable") };
+  let setup = |s: &mut Sess| { s.bind("x", &x, false); s.bind("i", &CVal::S("f64".into(), Sc::f64(di as f64)), false); s.bind("j", &CVal::S("f64".into(), Sc::f64(if pat == "lin" { ((dj - 1) * r + di) as f64 } else { dj as f64 })), false); };
+  let unwrap1 = |e: Ev| -> Ev { if ctx == "compr" { match e { Ev::Ok(v) if v.is_matrix() && v.elems().len() == 1 => Ev::Ok(v.elems()[0].clone()), o => o } } else { e } };
+  // the construct with the positions written as literals must work first (so that only the lookup of the local names is under test)
+  let mut p = Sess::new(); setup(&mut p);
+  let pr = unwrap1(p.eval(&probe));
+  if judge_read(&pr, &exp, &k).is_err() { return Outcome::trivial().tag(format!("ctx-unsupported:{}:{}", ctx, pat)); }
+  let mut s = Sess::new(); setup(&mut s);
+  let before = s.snapshot();
+  let res = unwrap1(s.eval(&text));
+  let mut after = s.snapshot(); after.remove("res");
+  if after != before { return Outcome::violated("source-modified", format!("symbols changed by {}: {} -> {}", text, show_snapshot(&before), show_snapshot(&after))); }
+  match judge_read(&res, &exp, &k) {
+    Ok(()) => Outcome::held().tag(format!("ctx:{}:{}", ctx, pat)),
+    Err((class, detail)) => if class == "harness-parse" { Outcome::inconclusive("harness-parse", format!("{} {}", text, detail)) } else { Outcome::violated(&format!("{}:local-subscript", class), format!("{} on {} with globals i = {} j = {}: {}", text, x.show(), di, dj, detail)) },
+  }
+}
+
 impl Prop for C03 {
   fn id(&self) -> &'static str { "C03" }
   fn rule(&self) -> String { "cells = element kind x matrix shape x index form (6 one-dimensional, 25 two-dimensional pairs) x variant (in-range | each boundary out-of-range variant of each position) x index literal kind; matrix elements encode their own linear index. Non-trivial = the form is supported (in-range read succeeded) so that selection / rejection was actually compared with the 1-based column-major model".into() }
@@ -190,6 +257,24 @@ impl Prop for C03 {
             let exp = ref_select(&x, &sels).expect("in-range selector must resolve");
             let src = format!("x{}", index_text(&sels, ik));
             out.push(Case { id: format!("{};var=in;d={}", base, d), cell: format!("{};var=in", base), input: json!({"kind": k, "x": x, "src": src, "probe": J::Null, "expect": exp, "documented": documented(&forms[..]) && *r >= 2 && *c >= 2 && sels.iter().all(|s| match s { Sel::V(v) => v.len() >= 2, Sel::M(m) | Sel::M2(_, m) => m.iter().filter(|b| **b).count() >= 2, Sel::R(a, b, _) => b > a, _ => true }), "ik": ik}) });
+            // the indexed matrix reached through another SOURCE form (mutable variable, copy, record field,
+            // tuple element, a definition written as a literal, a chained full subscript): same selection, same result
+            {
+              let nf = SRC_FORMS3.len();
+              let picks: Vec<usize> = if tier == Tier::Quick { if d == 0 { vec![(rng.below(nf as u64) as usize + seed as usize) % nf] } else { vec![] } } else { (0..nf).filter(|f| (f + d) % 3 == 0 || d == 0).collect() };
+              for f in picks {
+                let cell = format!("{};var=in;src={}", base, SRC_FORMS3[f]);
+                out.push(Case { id: format!("{};d={}", cell, d), cell, input: json!({"kind": k, "x": x, "src": src, "probe": J::Null, "expect": exp, "documented": false, "ik": ik, "srcform": SRC_FORMS3[f]}) });
+                // and one out-of-range variant through the same form
+                if let Some((label, bad)) = oor_variants(&sels[0], extents[0]).into_iter().next() {
+                  let mut s2 = sels.clone(); s2[0] = bad;
+                  if ref_select(&x, &s2).is_none() {
+                    let cell = format!("{};var=oor1-{};src={}", base, label, SRC_FORMS3[f]);
+                    out.push(Case { id: format!("{};d={}", cell, d), cell, input: json!({"kind": k, "x": x, "src": format!("x{}", index_text(&s2, ik)), "probe": src, "expect": J::Null, "documented": false, "ik": ik, "srcform": SRC_FORMS3[f]}) });
+                  }
+                }
+              }
+            }
             if d == 0 || tier == Tier::Thorough {
               for (pos, e) in extents.iter().enumerate() {
                 for (label, bad) in oor_variants(&sels[pos], *e) {
@@ -204,10 +289,28 @@ impl Prop for C03 {
         }
       }
     }
+    // subscripts that are LOCAL names: bound by a comprehension generator, a match arm's pattern or a function arm's
+    // pattern, with globals of the same names holding other valid positions
+    {
+      let kinds: Vec<&str> = if tier == Tier::Quick { (0..5).map(|i| ALL_KINDS[(i * 3 + seed as usize) % ALL_KINDS.len()]).collect() } else { ALL_KINDS.to_vec() };
+      for k in kinds {
+        for (r, c) in [(2usize, 3usize), (3, 2), (4, 4)] {
+          for ctx in ["compr", "match", "fn"] {
+            for pat in ["ij", "Lj", "iL", "aj", "ia", "lin", "rj", "ir"] {
+              let mut rng = Rng::keyed(seed, &format!("c03ctx;{};{}x{};{};{}", k, r, c, ctx, pat));
+              let i0 = 1 + rng.below(r as u64) as usize; let j0 = 1 + rng.below(c as u64) as usize;
+              let cell = format!("ctx;kind={};shape={}x{};ctx={};pat={}", k, r, c, ctx, pat);
+              out.push(Case { id: cell.clone(), cell, input: json!({"stratum": "ctx", "kind": k, "x": index_matrix(k, r, c, rng.below(5) as i64), "ctx": ctx, "pat": pat, "i0": i0, "j0": j0}) });
+            }
+          }
+        }
+      }
+    }
     out
   }
 
   fn run(&self, case: &Case, _flavour: &str) -> Outcome {
+    if case.input["stratum"] == "ctx" { return run_ctx(case); }
     let k = case.input["kind"].as_str().unwrap().to_string();
     let x: CVal = serde_json::from_value(case.input["x"].clone()).unwrap();
     let mut src = case.input["src"].as_str().unwrap().to_string();
@@ -238,6 +341,16 @@ impl Prop for C03 {
       let new_probe = match &probe_src { Some(p) => hoist(&mut s, p, "p"), None => None };
       if let Some(ns) = hoist(&mut s, &src, "i") { src = ns; hoisted = true; if let Some(np) = new_probe { probe_src = Some(np); } }
     }
+    let mut sform = String::new();
+    let mut sform_text = String::new();
+    if let Some(f) = case.input["srcform"].as_str() {
+      let Some(t) = source_form3(&mut s, &x, f) else { return Outcome::trivial().tag(format!("srcform-no-spelling:{}", f)) };
+      match s.eval(&t) { Ev::Ok(v) if v == x => {}, other => return Outcome::trivial().tag(format!("srcform-unavailable:{}", f)) }
+      let sub = |txt: &str| -> String { format!("{}{}", t, &txt[1..]) };
+      src = sub(&src);
+      if let Some(p) = &probe_src { probe_src = Some(sub(p)); }
+      sform = f.to_string(); sform_text = t.clone();
+    }
     let before = s.snapshot();
     if let Some(probe) = probe_src.as_deref() {
       // out-of-range variant: the in-range form must be supported first
@@ -259,11 +372,18 @@ impl Prop for C03 {
     let after = s.snapshot();
     if after != before { return Outcome::violated("source-modified", format!("symbols changed by read {}: {} -> {}", src, show_snapshot(&before), show_snapshot(&after))); }
     if let Ev::Err(kind, msg) = &res {
+      if !sform.is_empty() {
+        // the same selection on the plain variable works and the form takes subscripts at all: the form must work too
+        let plain = s.eval(case.input["src"].as_str().unwrap());
+        let subscriptable = s.eval(&format!("{}[1]", sform_text)).is_ok();
+        if plain.is_ok() && subscriptable { return Outcome::violated("source-form-rejected", format!("{} on {}: {} {} (the same subscript on the plain variable works)", src, x.show(), kind, msg.chars().take(100).collect::<String>())); }
+        return Outcome::trivial().tag(format!("unsupported-through:{}", sform));
+      }
       if case.input["documented"].as_bool().unwrap_or(false) && !hoisted { return Outcome::violated("documented-form-rejected", format!("{} on {}: {} {}", src, x.show(), kind, msg.chars().take(100).collect::<String>())); }
       return Outcome::trivial().tag(format!("unsupported:{}", case.cell.split("form=").nth(1).unwrap_or("").split(';').next().unwrap_or("")));
     }
     match judge_read(&res, &exp, &k) {
-      Ok(()) => Outcome::held().tag(format!("arm:{}", arm.split_whitespace().next().unwrap_or(""))).tag(if hoisted { "ixform:variables" } else { "ixform:literal" }),
+      Ok(()) => Outcome::held().tag(format!("arm:{}", arm.split_whitespace().next().unwrap_or(""))).tag(if hoisted { "ixform:variables" } else { "ixform:literal" }).tag(format!("srcform:{}", if sform.is_empty() { "var" } else { &sform })),
       Err((class, detail)) => if class == "harness-parse" { Outcome::inconclusive("harness-parse", format!("{} {}", src, detail)) } else { Outcome::violated(&class, format!("{} on {}: {}", src, x.show(), detail)) },
     }
   }
